@@ -161,7 +161,7 @@ def run_backends(c):
     profiles = collections.defaultdict(list)
     for b, v in configs:
         profiles[allowed_features(declared[b], v)].append((b, v))
-    n_per = 36 if quick else 400
+    n_per = 60 if quick else 400
     found = {}          # class -> (b, v, blocks, result)
     panics_declared = collections.Counter()
     reached_lines = collections.Counter()
